@@ -359,7 +359,7 @@ def c08(scn, out, tables, c, rn=None):
                     viol.append(V('c08.leak_at_nonpositive_pressure', n['type'], 't=%d %s: leak_demand %.3g at p=%.6g' % (t, nid, ld, p)))
             else:
                 hi = rm.leak_flow(lk['cd'], lk['area'], 1e-4)
-                if ld < -1e-9 or ld > hi * 1.0001 + 1e-9:
+                if ld < -1e-9 - tolr(rn, t) or ld > hi * 1.0001 + 1e-9 + tolr(rn, t):    # the leak flow is a solved variable: same residual slack as the orifice law
                     viol.append(V('c08.leak_band', n['type'], 't=%d %s: leak_demand %.3g in smoothing band p=%.3g' % (t, nid, ld, p)))
         if len(viol) > 6:
             break
